@@ -47,6 +47,94 @@ func Sign(u string, k int) Req {
 		SigShape: "ok", SigFmt: f, SigKey: k, SigData: "ok"}
 }
 
+// RandKbd: a keyboard-interactive request whose callback makes 0..3 Challenge calls; the answers follow
+// the request, mostly well-formed; after a bad one the client sends nothing more for this request
+// (sometimes one extra packet, which the server then reads as the next request).
+func RandKbd(r *hx.Rand, g *hx.Gen, u string) Req {
+	q := Kbd(u)
+	n := r.PickInt(0, 1, 1, 2, 3)
+	for i := 0; i < n; i++ {
+		qs := r.PickInt(0, 1, 1, 2, 3)
+		q.KbdRounds = append(q.KbdRounds, qs)
+	}
+	for _, qs := range q.KbdRounds {
+		if r.Chance(1, 7) {
+			q.Follow = append(q.Follow, r.PickStr("i"+itoa(qs+1), "ib", "gt", "gm", "o", "i"+itoa(qs+2)))
+			g.Stat("req.kbd-bad-response")
+			if r.Chance(1, 3) {
+				q.Follow = append(q.Follow, "i0")
+			}
+			return q
+		}
+		q.Follow = append(q.Follow, "i"+itoa(qs))
+	}
+	if r.Chance(1, 15) {
+		q.Follow = append(q.Follow, r.PickStr("i0", "gt", "o"))
+		g.Stat("req.leftover-packet")
+	}
+	g.Stat("req.kbd-rounds")
+	return q
+}
+
+// RandGss: a gssapi-with-mic request with a scripted AcceptSecContext sequence and the token / MIC
+// packets that go with it.
+func RandGss(r *hx.Rand, g *hx.Gen, u string) Req {
+	q := Other(u, "gssapi-with-mic")
+	q.GssPay = r.PickStr("k", "k", "k", "k", "k2", "nk", "n0", "m")
+	q.MicGood = r.Chance(3, 4)
+	ns := r.PickInt(1, 1, 2, 3)
+	for i := 0; i < ns; i++ {
+		e, o, c := "0", b01(r.Bool()), "1"
+		if i == ns-1 {
+			c = "0"
+		}
+		if r.Chance(1, 9) {
+			e = "1"
+		}
+		q.GssSteps = append(q.GssSteps, e+o+c)
+	}
+	if r.Chance(1, 12) { // a server that wants to go on although the script ends
+		q.GssSteps[ns-1] = "0" + q.GssSteps[ns-1][1:2] + "1"
+	}
+	if q.GssPay != "k" && q.GssPay != "k2" {
+		return q
+	}
+	g.Stat("req.gss-exchange")
+	bad := func(alts ...string) bool {
+		if r.Chance(1, 10) {
+			q.Follow = append(q.Follow, hx.Pick(r, alts))
+			g.Stat("req.gss-bad-packet")
+			return true
+		}
+		return false
+	}
+	if bad("gm", "ib", "i2", "o") {
+		return q
+	}
+	q.Follow = append(q.Follow, r.PickStr("gt", "gt", "gt", "i0"))
+	for _, s := range q.GssSteps {
+		if s[0] == '1' {
+			break
+		}
+		if s[2] == '1' {
+			if bad("gm", "ib", "i1", "o") {
+				return q
+			}
+			q.Follow = append(q.Follow, r.PickStr("gt", "gt", "i0"))
+		} else {
+			if bad("gt", "i0", "i1", "o") {
+				return q
+			}
+			q.Follow = append(q.Follow, "gm")
+		}
+	}
+	if r.Chance(1, 15) {
+		q.Follow = append(q.Follow, r.PickStr("gt", "gm"))
+		g.Stat("req.leftover-packet")
+	}
+	return q
+}
+
 // Letters is the base alphabet of the bounded-exhaustive enumeration (14 letters).
 func Letters() []Req {
 	wrongSess := Sign("a", 1)
@@ -83,9 +171,12 @@ func RandReq(r *hx.Rand, g *hx.Gen) Req {
 		}
 		return q
 	case 3:
-		return Kbd(u)
+		return RandKbd(r, g, u)
 	case 4:
-		return Other(u, r.PickStr("hostbased", "gssapi-with-mic", "NONE", "publickey2"))
+		if r.Chance(2, 3) {
+			return RandGss(r, g, u)
+		}
+		return Other(u, r.PickStr("hostbased", "NONE", "publickey2"))
 	case 5:
 		switch r.Intn(8) {
 		case 0:
@@ -155,7 +246,7 @@ func RandReq(r *hx.Rand, g *hx.Gen) Req {
 
 // ---- scripted outcomes
 
-var randOutcomes = []string{"A0", "A1", "A1", "A2", "A3", "A4", "A4", "R", "R", "B0", "B1", "P111.0", "P010.0", "P100.0", "P001.0", "P000.0", "P110.1", "P011.0"}
+var randOutcomes = []string{"A0", "A1", "A1", "A2", "A3", "A4", "A4", "R", "R", "B0", "B1", "P111.0", "P010.0", "P100.0", "P001.0", "P000.0", "P110.1", "P011.0", "P0001.0", "P1111.0", "P0011.0"}
 
 // SetOutcomes fills cb / vcb of every request according to a table:
 //
@@ -252,7 +343,7 @@ var algSets = [][]string{
 // RandCfg draws a configuration; friendly = the common, permissive shape (all callbacks, default
 // algorithms, TCP peer) so that the enumerated histories mostly get past the guards.
 func RandCfg(r *hx.Rand, friendly bool) Cfg {
-	c := Cfg{MaxTries: r.PickInt(-1, 0, 1, 2, 3, 6), Cbs: "111", Ban: "n", Addr: "tcp~10.1.2.3"}
+	c := Cfg{MaxTries: r.PickInt(-1, 0, 1, 2, 3, 6), Cbs: r.PickStr("111", "1111", "1111"), Ban: "n", Addr: "tcp~10.1.2.3"}
 	if friendly {
 		c.MaxTries = r.PickInt(-1, 0, 3, 6)
 	}
@@ -263,8 +354,8 @@ func RandCfg(r *hx.Rand, friendly bool) Cfg {
 		c.Ban = r.PickStr("e", "m")
 	}
 	if !friendly || r.Chance(1, 8) {
-		c.Cbs = r.PickStr("111", "111", "110", "010", "100", "011", "001", "000", "101")
-		if c.Cbs == "000" {
+		c.Cbs = r.PickStr("111", "1111", "110", "010", "100", "011", "001", "000", "101", "0001", "0011", "1101", "0000")
+		if c.Cbs == "000" || c.Cbs == "0000" {
 			c.NCA = true
 		}
 		if r.Chance(1, 3) {
